@@ -72,13 +72,26 @@ def run(ctx):
         evs = evs + evs2
         ctx.extra['reloads_from_storage'] = ctx.extra.get('reloads_from_storage', 0) + sum(1 for e in evs if e.get('ev') == 'Reload')
         ctx.sample({'kind': 'store lifecycle commands on a real server', 'events': [{k: v for k, v in e.items() if k in ('ev', 'id', 'res', 'fail', 'served', 'peers')} for e in evs[1:6]]})
+    # beyond the listed clauses: the cluster version that gates features follows the registered stores (ClusterVersion.tla)
+    ctx.mc('cluster', 'MC_ClusterVersion', 'MC_ClusterVersion.cfg', timeout=900)
+    for sd in seeds:
+        tr3 = os.path.join(ctx.dir, 'version_%d.ndjson' % sd)
+        vlib.run_harness(['cluster', 'version', 'out=' + tr3, 'seed=%d' % sd, 'histories=%d' % (12 if q else 60), 'ops=40'], timeout=2400)
+        bad3, evs3 = ctx.monitor_all('cluster', 'Mon_ClusterVersion', 'Mon_ClusterVersion.cfg', tr3, 'version_%d' % sd)
+        handle(ctx, bad3, evs3, 'version_%d' % sd)
+        ctx.extra['cluster_version_steps'] = ctx.extra.get('cluster_version_steps', 0) + sum(1 for e in evs3 if e.get('ev') not in ('reset', 'Init'))
     return ctx.finish(rule='exhaustive TLC of StoreLifecycle.tla (3 stores, 2 addresses, 6-8 commands, 1 failed write, reloads); TLC -simulate '
                            'behaviours (4 stores, 40 commands, failures at any write) replayed through the gRPC handlers and RaftCluster of a '
-                           'real in-process server incl. leader re-election (reload from storage); Mon_StoreLifecycle.tla decides')
+                           'real in-process server incl. leader re-election (reload from storage); Mon_StoreLifecycle.tla decides. Extension: ClusterVersion.tla '
+                           '(registration with versions, removal, burial, administrator override) model-checked and histories of a real server judged by Mon_ClusterVersion.tla')
 
 
 def replay(ctx, path):
     tr = os.path.join(path, 'trace.ndjson')
+    if any('cv' in e for e in vlib.read_ndjson(tr)):
+        bad, evs = ctx.monitor_all('cluster', 'Mon_ClusterVersion', 'Mon_ClusterVersion.cfg', tr, 'replay')
+        handle(ctx, bad, evs, 'replay')
+        return ctx.finish()
     bad, evs = ctx.monitor_all('cluster', 'Mon_StoreLifecycle', 'Mon_StoreLifecycle.cfg', tr, 'replay')
     handle(ctx, bad, evs, 'replay')
     return ctx.finish()
